@@ -99,6 +99,14 @@ func engNLPTables() *engTables {
 
 func recase(r *rand.Rand, q string) string {
 	b := []byte(q)
+	if r.Intn(3) == 0 { // all (ASCII) capitals: no lower-case spelling of any phrase survives
+		for i, c := range b {
+			if c >= 'a' && c <= 'z' {
+				b[i] = c - 32
+			}
+		}
+		return string(b)
+	}
 	for i, c := range b {
 		if c >= 'a' && c <= 'z' && r.Intn(2) == 0 {
 			b[i] = c - 32
